@@ -12,6 +12,7 @@ _SL = ("reverse", "sort", "sort_by", "sort_by_key", "sort_unstable", "sort_unsta
 _VE = ("dedup", "dedup_by", "dedup_by_key", "retain", "truncate", "pop", "remove", "swap_remove", "drain", "insert", "split_off",
        "clear")
 REORDER = tuple(["std::iter::Iterator::" + n for n in _IT] + ["core::slice::<impl [T]>::" + n for n in _SL] +
+                ["std::slice::<impl [T]>::" + n for n in _SL] +
                 ["std::vec::Vec::<T, A>::" + n for n in _VE] + ["std::iter::DoubleEndedIterator::rev", "std::iter::DoubleEndedIterator::next_back"])
 
 
